@@ -1,6 +1,7 @@
 package mon
 
 import (
+	"fmt"
 	"math"
 	"math/big"
 	"strings"
@@ -306,6 +307,57 @@ func c09Run(c *fw.Ctx, idx int) {
 	c09Judge(c, t, m, g, kind, " after "+what)
 }
 
+// c09Huge: a part of more than 65,536 coordinates (on and next to multiples of
+// that size) in first, middle or last position among small parts
+func c09Huge(c *fw.Ctx, idx int) {
+	r := c.R
+	layout := []geom.Layout{geom.XY, geom.XYZ, geom.XYZM}[r.Intn(3)]
+	stride := layout.Stride()
+	nbig := hugeFloats(r, 1)/4 + 3
+	if r.Bool() {
+		nbig = 65536 + r.Range(-2, 3)
+	}
+	mk := func(n int) [][]float64 {
+		seq := make([][]float64, 0, n+1)
+		x, y := float64(r.Range(-50, 50)), float64(r.Range(-50, 50))
+		for i := 0; i < n; i++ {
+			x += float64(r.Range(-3, 3))
+			y += float64(r.Range(-3, 3))
+			co := make([]float64, stride)
+			co[0], co[1] = x, y
+			for k := 2; k < stride; k++ {
+				co[k] = float64(r.Range(-9, 9))
+			}
+			seq = append(seq, co)
+		}
+		return append(seq, append([]float64{}, seq[0]...)) // closed
+	}
+	small := func() [][]float64 { return mk(r.Range(3, 6)) }
+	pos := r.Intn(3)
+	parts := [][][]float64{small(), small(), small()}
+	parts[pos] = mk(nbig)
+	var g *model.G
+	kind := []model.Kind{model.MultiLineString, model.Polygon, model.MultiPolygon}[r.Intn(3)]
+	switch kind {
+	case model.MultiLineString, model.Polygon:
+		g = &model.G{Kind: kind, Layout: layout, C2: parts}
+	default:
+		g = &model.G{Kind: kind, Layout: layout, C3: [][][][]float64{{parts[0]}, {}, {parts[1], parts[2]}}}
+		if r.Bool() {
+			g.C3 = [][][][]float64{{parts[0], parts[1]}, {parts[2]}}
+		}
+	}
+	c.SetInput(map[string]any{"type": kind.String(), "layout": layout.String(), "coordinates_of_the_large_part": nbig + 1, "position_of_the_large_part": pos, "note": "random walk with steps of -3..3, closed; regenerated from the seed and case index"})
+	t := g.BuildFlat()
+	m, ok := t.(measurer)
+	if !ok {
+		return
+	}
+	c.Count("huge_part_" + kind.String())
+	c.Distinct(fmt.Sprintf("huge/%s/%d/%d", kind, pos, nbig))
+	c09Judge(c, t, m, g, kind, "")
+}
+
 // c09InjectBad gives the first coordinate of g one ordinate too many.
 func c09InjectBad(g *model.G) bool {
 	grow := func(co []float64) []float64 { return append(append([]float64{}, co...), 1) }
@@ -485,8 +537,11 @@ func init() {
 		Rule: "generated LinearRing/Polygon/MultiPolygon/LineString/MultiLineString/Point/MultiPoint in XY..Layout(7) with empty rings/lines/polygons at any position; X,Y zero, grid integers or magnitude 2^-200..2^200, extra ordinates arbitrary incl. NaN/Inf; " +
 			"Area compared with the exact rational shoelace area (rings closed), Length with a 400-bit sum of square roots, tolerance (n+8)*2^-52*sum|terms| computed by the oracle; additivity over part accessors; zero area of points and lines. " +
 			"distinct_nontrivial = distinct shape signatures with at least one coordinate",
-		Assume:  []string{"math/big is exact; 400-bit square roots have negligible error against the tolerance", "|X|,|Y| are 0 or within [2^-200,2^200] so no intermediate overflows or underflows"},
-		Classes: []fw.Class{{Name: "measures", Quick: 150000, Thorough: 5000000, Run: c09Run}},
+		Assume: []string{"math/big is exact; 400-bit square roots have negligible error against the tolerance", "|X|,|Y| are 0 or within [2^-200,2^200] so no intermediate overflows or underflows"},
+		Classes: []fw.Class{
+			{Name: "measures", Quick: 150000, Thorough: 5000000, Run: c09Run},
+			{Name: "huge-parts", Quick: 16, Thorough: 400, Chunk: 1, Run: c09Huge},
+		},
 		Require: []string{"area_compared", "length_compared", "additivity_checked", "multipolygon_with_empty_polygon", "empty_component_before_nonempty", "area_positive_ccw", "area_negative_cw", "area_zero_checked"},
 	})
 }
